@@ -118,8 +118,15 @@ fn dist(a: C4, b: C4) -> f64 {
 }
 
 fn apply_def(def: &str, dir: Direction, data: &[C4]) -> Result<(usize, Vec<C4>), String> {
+    apply_def_with(&[], def, dir, data)
+}
+
+fn apply_def_with(macros: &[(String, String)], def: &str, dir: Direction, data: &[C4]) -> Result<(usize, Vec<C4>), String> {
     match catch(|| {
         let mut ctx = Minimal::default();
+        for (name, body) in macros {
+            ctx.register_resource(name, body);
+        }
         let op = ctx.op(def).map_err(|e| e.to_string())?;
         let mut d: Vec<Coor4D> = data.iter().map(|t| Coor4D(*t)).collect();
         let n = ctx.apply(op, dir, &mut d).map_err(|e| e.to_string())?;
@@ -282,17 +289,35 @@ fn molodensky(rep: &Report, tier: Tier, worst: &Mutex<BTreeMap<String, f64>>) {
     let (e0, e1) = ("intl", "GRS80");
     let ell1 = ref_ellipsoid(e1).unwrap();
     for shift in [[-87., -96., -120.], [100., -100., 100.], [0., 0., 0.], [-200., 0., 0.], [0., 150., -150.]] {
-        for (abridged, spelling) in [(false, 0), (true, 0), (false, 1), (false, 2), (false, 3), (true, 3)] {
+        for (abridged, spelling) in [(false, 0), (true, 0), (false, 1), (false, 2), (false, 3), (true, 3), (false, 4), (false, 5), (false, 6), (false, 7), (true, 7)] {
             // the same pair of ellipsoids, spelled in every way the gamut allows
             let ell0 = ref_ellipsoid(e0).unwrap();
+            let mut target = e1;
+            let mut ell1 = ell1;
             let ellipsoids = match spelling {
                 0 => format!("ellps_0={e0} ellps_1={e1}"),
                 1 => format!("ellps={e0} ellps_1={e1}"),
                 2 => format!("ellps_0={e0}"), // the target defaults to GRS80
-                _ => format!("ellps={e0} da={:?} df={:?}", ell1.a - ell0.a, ell1.f - ell0.f),
+                3 => format!("ellps={e0} da={:?} df={:?}", ell1.a - ell0.a, ell1.f - ell0.f),
+                // 4-6: (part of) the ellipsoids given by the caller of a macro
+                4 => format!("ellps_1={e1}"),
+                5 => format!("ellps_0=$from ellps_1=$to({e1})"),
+                6 => String::new(),
+                // explicitly given differences win, also when they are zero: same ellipsoid on both sides
+                _ => {
+                    target = e0;
+                    ell1 = ell0;
+                    format!("ellps={e0} da=0 df=0")
+                }
             };
-            let mol = format!("molodensky {ellipsoids} dx={} dy={} dz={}{}", shift[0], shift[1], shift[2], if abridged { " abridged" } else { "" });
-            let path = format!("cart ellps={e0} | helmert x={} y={} z={} | cart inv ellps={e1}", shift[0], shift[1], shift[2]);
+            let body = format!("molodensky {ellipsoids} dx={} dy={} dz={}{}", shift[0], shift[1], shift[2], if abridged { " abridged" } else { "" });
+            let (macros, mol) = match spelling {
+                4 => (vec![("my:mol".to_string(), body)], format!("my:mol ellps_0={e0}")),
+                5 => (vec![("my:mol".to_string(), body)], format!("my:mol from={e0}")),
+                6 => (vec![("my:mol".to_string(), body), ("my:outer".to_string(), "my:mol ellps_1=$target".to_string())], format!("my:outer ellps_0={e0} target={e1}")),
+                _ => (vec![], body),
+            };
+            let path = format!("cart ellps={e0} | helmert x={} y={} z={} | cart inv ellps={target}", shift[0], shift[1], shift[2]);
             let mut pts: Vec<C4> = Vec::new();
             for &lat in &lat_lattice(step, 85.) {
                 for &lon in &dlon_lattice(step * 2., 180.) {
@@ -301,10 +326,10 @@ fn molodensky(rep: &Report, tier: Tier, worst: &Mutex<BTreeMap<String, f64>>) {
                     }
                 }
             }
-            let (a, b) = (apply_def(&mol, Fwd, &pts), apply_def(&path, Fwd, &pts));
+            let (a, b) = (apply_def_with(&macros, &mol, Fwd, &pts), apply_def(&path, Fwd, &pts));
             rep.eval(pts.len() as u64);
             let (Ok((_, a)), Ok((_, b))) = (a, b) else {
-                rep.violation("molodensky or its cartesian counterpart fails", json!({"molodensky": mol, "path": path}));
+                rep.violation("molodensky or its cartesian counterpart fails", json!({"molodensky": mol, "macros": macros, "path": path}));
                 continue;
             };
             let tol = if abridged { 5. } else { 0.5 };
@@ -315,7 +340,7 @@ fn molodensky(rep: &Report, tier: Tier, worst: &Mutex<BTreeMap<String, f64>>) {
                 if !(d <= tol) {
                     rep.violation(
                         &format!("molodensky differs from the cartesian three-parameter path by more than its published accuracy ({tol} m) / {}", if abridged { "abridged" } else { "full" }),
-                        json!({"molodensky": mol, "path": path, "input": x, "molodensky_result": ma, "path_result": pb, "distance_m": d}),
+                        json!({"molodensky": mol, "macros": macros, "path": path, "input": x, "molodensky_result": ma, "path_result": pb, "distance_m": d}),
                     );
                     break;
                 }
